@@ -111,10 +111,27 @@ def raw_inverse_paths(repo: Repo, rep, P: str, rule: str):
     def through_conv(e: ast.AST) -> bool:
         for c in ast.walk(e):
             if isinstance(c, ast.Call) and ((isinstance(c.func, ast.Name) and c.func.id in conv_names)
-                                            or (isinstance(c.func, ast.Attribute) and c.func.attr == "from_raw_value")):
+                                            or (isinstance(c.func, ast.Attribute) and c.func.attr == "from_raw_value")
+                                            or (isinstance(c.func, ast.Call) and norm(c.func.func) == "getattr" and len(c.func.args) == 3
+                                                and isinstance(c.func.args[1], ast.Constant) and c.func.args[1].value == "from_raw_value"
+                                                and norm(c.func.args[2]) == "int")):
                 if len(c.args) == 1 and norm(c.args[0]) == raw:
                     return True
         return False
+
+    def unresolved_call_on_raw(e: ast.AST) -> Optional[str]:
+        """text of a call that takes the raw value and whose callee this rule cannot name (a method of a local object, a local
+        callable that is not the from_raw_value look-up): what it returns is not known."""
+        for c in ast.walk(e):
+            if isinstance(c, ast.Call) and any(isinstance(x, ast.Name) and x.id == raw for a in c.args for x in ast.walk(a)):
+                f = c.func
+                if isinstance(f, ast.Name) and f.id not in conv_names and f.id not in ("int", "float", "round", "bool", "abs", "min", "max", "str"):
+                    return norm(c)
+                if isinstance(f, ast.Attribute) and f.attr != "from_raw_value":
+                    return norm(c)
+                if isinstance(f, (ast.Call, ast.Subscript)) and not through_conv(c):
+                    return norm(c)
+        return None
     for s in stores:
         val = s.ast.value
         if not isinstance(val, ast.Name):
@@ -136,6 +153,9 @@ def raw_inverse_paths(repo: Repo, rep, P: str, rule: str):
             where_txt = "lenient (except RangeValidationError) branch" if "handler" in _ctx_of(fn, dn.ast) else "normal path"
             if through_conv(dn.ast.value) or _derived_from_conv(g, dn, through_conv, set()):
                 rep.ok(f"{P}.{rule}", construct, f"{dn.text()}  [{where_txt}]", "definition passes through from_raw_value(raw)")
+            elif unresolved_call_on_raw(dn.ast.value) or _reads_unresolved(g, dn, unresolved_call_on_raw, set()):
+                rep.inconclusive(f"{P}.{rule}", construct, f"{dn.text()}  [{where_txt}]",
+                                 f"the stored value comes from a call on `{raw}` whose callee is not resolved", f"{rel}:{dn.lineno}")
             else:
                 rep.violation(f"{P}.{rule}", construct, f"{dn.text()}  [{where_txt}]",
                               f"on the {where_txt} the value stored for the controller is `{norm(dn.ast.value)}`, not "
@@ -160,7 +180,9 @@ def raw_inverse_paths(repo: Repo, rep, P: str, rule: str):
     for r in rets:
         v = r.value
         ok = isinstance(v, ast.Call) and len(v.args) == 1 and \
-            ((isinstance(v.func, ast.Name) and v.func.id in conv) or (isinstance(v.func, ast.Attribute) and v.func.attr == "to_raw_value"))
+            ((isinstance(v.func, ast.Name) and v.func.id in conv) or (isinstance(v.func, ast.Attribute) and v.func.attr == "to_raw_value")
+             or (isinstance(v.func, ast.Call) and norm(v.func.func) == "getattr" and len(v.func.args) == 3 and isinstance(v.func.args[1], ast.Constant)
+                 and v.func.args[1].value == "to_raw_value" and norm(v.func.args[2]) == "int"))
         if ok:
             arg = v.args[0]
             names = {n.id for n in ast.walk(arg) if isinstance(n, ast.Name)}
@@ -199,9 +221,14 @@ def raw_inverse_paths(repo: Repo, rep, P: str, rule: str):
             if src_ok and none_ok and enum_ok:
                 rep.ok(f"{P}.{rule}", gcon, norm(r), "to_raw_value(attribute value; enum → .value; None → 0)")
             else:
-                rep.violation(f"{P}.{rule}", gcon, norm(r),
-                              f"get_raw must convert the attribute's current value (source ok={src_ok}, None→0 {none_ok}, enum→value {enum_ok})",
-                              f"{rel}:{r.lineno}")
+                # the three ingredients are looked for in the spellings listed above; one that is not found may be spelled otherwise
+                rep.inconclusive(f"{P}.{rule}", gcon, norm(r),
+                                 f"get_raw: conversion of the attribute's current value not recognised (source {src_ok}, None→0 {none_ok}, enum→value {enum_ok})",
+                                 f"{rel}:{r.lineno}")
+        elif isinstance(v, ast.Call) and not (isinstance(v.func, ast.Name) and v.func.id in ("int", "round", "float", "bool", "abs", "str")
+                                               and not any(isinstance(n, ast.Name) and isinstance(n.ctx, ast.Store) and n.id == v.func.id for n in ast.walk(gfn))):
+            rep.inconclusive(f"{P}.{rule}", gcon, norm(r), f"get_raw returns the result of `{norm(v.func)}`, which is not resolved to a conversion",
+                             f"{rel}:{r.lineno}")
         else:
             rep.violation(f"{P}.{rule}", gcon, norm(r),
                           "get_raw returns a value that does not pass through to_raw_value: the stored form of offset "
@@ -221,7 +248,8 @@ def _derived_from_conv(g: CFG, node: Node, through_conv, seen: Set[int], depth: 
     seen.add(node.id)
     rhs = node.ast.value
     # the value expression must be of the form f(x) / x where x carries the converted value
-    names = [n.id for n in ast.walk(rhs) if isinstance(n, ast.Name) and isinstance(n.ctx, ast.Load)]
+    callee_ids = {id(x) for c in ast.walk(rhs) if isinstance(c, ast.Call) for x in ast.walk(c.func)}      # what is called is not data
+    names = [n.id for n in ast.walk(rhs) if isinstance(n, ast.Name) and isinstance(n.ctx, ast.Load) and id(n) not in callee_ids]
     callee_names = {c.func.id for c in ast.walk(rhs) if isinstance(c, ast.Call) and isinstance(c.func, ast.Name)}
     data_names = [n for n in names if n not in callee_names]
     if len(set(data_names)) != 1:
@@ -237,6 +265,22 @@ def _derived_from_conv(g: CFG, node: Node, through_conv, seen: Set[int], depth: 
         if not (through_conv(dn.ast.value) or _derived_from_conv(g, dn, through_conv, seen, depth + 1)):
             return False
     return True
+
+
+def _reads_unresolved(g: CFG, node: Node, unresolved, seen: Set[int], depth: int = 0) -> bool:
+    """some local the definition reads is (transitively) defined from an unresolved call on the raw value."""
+    if depth > 6 or node.id in seen:
+        return False
+    seen.add(node.id)
+    rhs = node.ast.value
+    for nm in {n.id for n in ast.walk(rhs) if isinstance(n, ast.Name) and isinstance(n.ctx, ast.Load)}:
+        for d in _reaching_defs(g, nm).get(node.id, frozenset()):
+            if d == -1:
+                continue
+            dn = g.nodes[d]
+            if isinstance(dn.ast, ast.Assign) and (unresolved(dn.ast.value) or _reads_unresolved(g, dn, unresolved, seen, depth + 1)):
+                return True
+    return False
 
 
 def _ctx_of(fn, node) -> str:
